@@ -648,6 +648,25 @@ func (p *probeRun) checkAll(step string) {
 				}
 			}
 		}
+		// --- C13: Marshal is a read, also of a clean inner node: what the reader then does with the bytes it was given (append a
+		// separator, reuse them as a buffer) is no edit of the tree
+		if !n.IsDirty() && n.Parent() != nil {
+			rt := rootOf(n)
+			if !rt.IsDirty() {
+				before := append([]byte(nil), rt.Source()...)
+				if out, merr := ajson.Marshal(n); merr == nil {
+					p.o.Check("C13", "marshal-is-a-read")
+					out = append(out, ',', ' ')
+					for i := range out {
+						out[i] = '#'
+					}
+					if !bytes.Equal(rt.Source(), before) {
+						p.fail("C13", "marshal-is-a-read", "Marshal("+n.Path()+"), then writing into / appending to the returned bytes, changed the source bytes of the queried tree", hexOrDash(before), hexOrDash(rt.Source()))
+						copy(rt.Source(), before) // keep the run going on the original text
+					}
+				}
+			}
+		}
 		// --- C16: Path() is a working address; distinct nodes have distinct paths
 		root := rootOf(n)
 		path := n.Path()
@@ -1348,7 +1367,11 @@ func mustVsGet(p *probeRun, n *ajson.Node) {
 func setUnsupported(p *probeRun, n *ajson.Node) {
 	p.o.Check("C15", "set-unsupported")
 	before := treeFP(rootOf(n))
-	for _, v := range []interface{}{struct{}{}, []int{1}, map[string]int{"a": 1}, complex(1, 1), []string{"a"}, &struct{ A int }{1}, []byte("x"), uintptr(1)} {
+	// … also values whose OUTER type an implementation may come to support but which hold an unsupported leaf somewhere: a
+	// conversion that works element by element on the live receiver is not atomic
+	for _, v := range []interface{}{struct{}{}, []int{1}, map[string]int{"a": 1}, complex(1, 1), []string{"a"}, &struct{ A int }{1}, []byte("x"), uintptr(1),
+		[]interface{}{"new", struct{}{}}, []interface{}{struct{}{}}, []interface{}{1.5, []interface{}{true, make(chan int)}},
+		map[string]interface{}{"a": 1.0, "b": make(chan int)}, map[string]interface{}{"k": []interface{}{complex(1, 2)}}} {
 		if err := n.Set(v); err == nil {
 			p.fail("C15", "set-unsupported", fmt.Sprintf("Set(%T) succeeded", v), "error", "nil")
 		}
